@@ -65,11 +65,14 @@ func h17All(nodes []hNode, start hNode, bad string) {
 			// one non-existent step, at every position: a name no node has, and the two
 			// near misses of the real step (a symbolic letter before it / after it)
 			for k := range ts {
-				for variant := 0; variant < 3; variant++ {
+				for variant := 0; variant < 4; variant++ {
 					p := ""
 					for j, s := range ts {
 						if j == k {
 							switch variant {
+							case 3:
+								// the non-existent step is undone by a following ..: still nothing
+								p += "/" + pfx + ":" + bad + "/.."
 							case 0:
 								s = bad
 							case 1:
@@ -82,7 +85,7 @@ func h17All(nodes []hNode, start hNode, bad string) {
 					}
 					// the near miss may happen to be the name of a real child there: then the path is
 					// not one with a non-existent step
-					if variant > 0 {
+					if variant == 1 || variant == 2 {
 						miss := bad[2:] + ts[k]
 						if variant == 2 {
 							miss = ts[k] + bad[2:]
@@ -174,4 +177,56 @@ func H17comp() {
 	reach("processed")
 	bad := h17Bad()
 	h17All(nodes, nodes[symChoice(len(nodes))], bad)
+}
+
+// H17rev: the first step of an absolute path switches to the tree of the module that the start
+// node's module imports under that prefix - with two revisions of that module loaded, the one
+// the import names (its revision-date, else the latest). Load order and the pinned revision are
+// symbolic; every leaf of either revision is looked up from the importer.
+func H17rev() {
+	r19 := `module lib { namespace "urn:lib"; prefix lib; revision 2019-01-01; container c { leaf both { type string; } leaf old { type string; } } }`
+	r20 := `module lib { namespace "urn:lib"; prefix lib; revision 2020-06-15; container c { leaf both { type string; } leaf new { type string; } container sub { leaf deep { type string; } } } }`
+	pin := symChoice(3)
+	imp := `import lib { prefix l; }`
+	switch pin {
+	case 1:
+		imp = `import lib { prefix l; revision-date 2019-01-01; }`
+	case 2:
+		imp = `import lib { prefix l; revision-date 2020-06-15; }`
+	}
+	u := `module u { namespace "urn:u"; prefix u; ` + imp + ` container uc { leaf ul { type string; } } }`
+	texts := []string{r19, r20, u}
+	orders := [][]int{{0, 1, 2}, {1, 0, 2}, {2, 0, 1}, {2, 1, 0}, {0, 2, 1}, {1, 2, 0}}
+	o := orders[symChoice(len(orders))]
+	hNoFiles()
+	ms := NewModules()
+	for _, k := range o {
+		check(ms.Parse(texts[k], "f"+string([]byte{'0' + byte(k)})+".yang") == nil, "the modules load")
+	}
+	errs := ms.Process()
+	check(len(errs) == 0, "the modules process")
+	if len(errs) > 0 {
+		return
+	}
+	reach("processed")
+	want := ms.Modules["lib@2020-06-15"]
+	if pin == 1 {
+		want = ms.Modules["lib@2019-01-01"]
+	}
+	check(want != nil, "both revisions are loaded")
+	if want == nil {
+		return
+	}
+	tree := ToEntry(want)
+	start := ToEntry(ms.Modules["u"]).Dir["uc"].Dir["ul"]
+	names := []string{"both", "old", "new", "sub"}
+	n := names[symChoice(len(names))]
+	got := start.Find("/l:c/l:" + n)
+	check(got == tree.Dir["c"].Dir[n], "an absolute path from an importer finds the node (or nothing) in the tree of the revision its import names")
+	check(start.Find("/l:c") == tree.Dir["c"], "an absolute path from an importer lands in the tree of the revision its import names")
+	if pin != 1 {
+		check(start.Find("/l:c/l:sub/l:deep") == tree.Dir["c"].Dir["sub"].Dir["deep"], "deeper node of the named revision")
+	} else {
+		check(start.Find("/l:c/l:sub/l:deep") == nil, "a node only the other revision has is not found")
+	}
 }
